@@ -23,6 +23,11 @@ CHECKS = {
    "The id space, the registry table and the single-edit neighbourhood of every registry name are finite and enumerated completely against an independent reading of scripts/tls-ciphersuites.txt, a committed snapshot of today's assignments and the IANA naming convention.",
    "Trusted: scripts/tls-ciphersuites.txt as the reference registry, the committed snapshot, the token tables in vcommon/src/reference/ciphers.rs (names with unknown tokens are counted, not judged).",
    "DESIGN.md section 3 C12"),
+ "C07": (True, "model_checking",
+   "explicit-state BFS over operation sequences on the real TlsRecordsParser (canonical-state dedup, witness-history replay) against an accumulate-then-parse reference",
+   "All operation sequences over a 19-record alphabet x {parse_record, parse_record_nocopy} + reset up to the stated depth, all k-way splits (incl. empty fragments and cuts inside the header) of every catalogue payload interleaved with foreign-type records / nocopy / reset to fixpoint, and the 10 MiB cap histories are executed on the real object; every transition is compared with the reference model (value with slice provenance, in-progress flag, buffer, state preservation on refusals).",
+   "Trusted: parse_tls_record_with_header as the inner one-shot oracle (its correctness is C03/C04); payloads <= 45 bytes; S0 depth bound as reported in the evidence.",
+   "DESIGN.md section 3 C07"),
 }
 PENDING_REASON = "check not built yet in this round (work in progress; see DESIGN.md appendix C for the build order)"
 
